@@ -1,10 +1,33 @@
-(* C09: theorems are being added; this file holds ONLY statements closed by exact, each followed by Print Assumptions. *)
+(* C09: the server channel carries only well-formed, correctly addressed messages.  ONLY statements closed by `exact`, each
+   followed by Print Assumptions.  Operator assumptions: service names, rule names and classes are words (WfTabs / wfrule);
+   protocol assumption: an input line holds no CR other than the one directly before its LF (nolfcr (strip_cr raw)). *)
 From Coq Require Import List NArith ZArith Bool Strings.Byte Strings.String.
 Import ListNotations.
-Require Import Params Iauth IauthFacts.
+Require Import Params AddrFull Iauth Line Junk Wf.
 Local Open Scope list_scope.
 
-Theorem stray_reply_is_a_noop_on_the_request : forall c tb r svcn text,
-  find_slot (slots tb) 0 svcn (refm r) = None -> reply c tb r svcn text = (Some r, [], []).
-Proof. exact stray_reply_noop. Qed.
-Print Assumptions stray_reply_is_a_noop_on_the_request.
+(* from start-up on, across reloads: every line ever written renders without LF, CR or NUL; the address of a client message and
+   the service name of a query are non-empty, space-free and do not start with ':' *)
+Theorem every_output_line_is_wellformed : forall c services rs t es,
+  Forall (fun e => word (fst e)) services -> Forall wfrule rs -> Forall wf_rev es ->
+  Forall (fun x => Forall wf_out (fst x)) (run_revs c (init c services rs t) es).
+Proof. exact daemon_outputs_wellformed. Qed.
+Print Assumptions every_output_line_is_wellformed.
+
+(* every client-directed message carries the id, address text and port stored for that client at its announcement *)
+Theorem client_messages_correctly_addressed : forall c s id argv k i a p rest,
+  In (OC k i a p rest) (snd (step c s id argv)) ->
+  exists r, lookup i (reqs s) = Some r /\ i = cid r /\ a = addr r /\ p = port r.
+Proof. exact client_msgs_addressed. Qed.
+Print Assumptions client_messages_correctly_addressed.
+
+(* whatever text the server announces, the parser yields eight groups below 65536 (the index never leaves the array) ... *)
+Theorem parser_result_is_an_address : forall input usebits trailing n b gs,
+  pton input usebits trailing = Res n b gs -> AddrWf.Wf8 gs.
+Proof. exact AddrWf.pton_groups_wf. Qed.
+Print Assumptions parser_result_is_an_address.
+
+(* ... and the stored address text is a word; together with C12's round trip it denotes the announced address *)
+Theorem stored_address_text_is_a_word : forall a, word (snd (announce_addr a)) /\ AddrWf.Wf8 (fst (announce_addr a)).
+Proof. exact announce_word. Qed.
+Print Assumptions stored_address_text_is_a_word.
